@@ -88,7 +88,7 @@ theorem coarsenGo_sublist (err : ℝ) (rest : List (List ℝ)) (b : List ℝ) :
     | cons r' rest' =>
       unfold coarsenGo
       split
-      · exact (ih r).cons₂ r
+      · exact (ih r).cons_cons r
       · exact (ih b).cons r
 
 theorem coarsenGo_last (err : ℝ) (mid : List (List ℝ)) (last b : List ℝ) :
@@ -147,6 +147,15 @@ theorem select_stabMaskGo (ρ : ℝ → ℝ → ℝ → ℝ) (rest : List (List 
           List.singleton_append, List.cons.injEq, true_and]
         exact ih htl (sigma ρ r)
 
+/-- with no negative depth the mask selects the first row and `keepGo` of the rest -/
+theorem stab_kept (ρ : ℝ → ℝ → ℝ → ℝ) (first : List ℝ) (rest : List (List ℝ))
+    (hz : ∀ r ∈ first :: rest, 0 ≤ depth r) :
+    selectRows (first :: rest) (stabMask ρ (first :: rest)) = first :: keepGo ρ (sigma ρ first) rest := by
+  have h0 : (0 : ℝ) ≤ depth first := hz first (by simp)
+  unfold stabMask
+  rw [selectRows_cons, select_stabMaskGo ρ rest (fun r hr => hz r (by simp [hr]))]
+  simp [Num.real_zero, h0]
+
 theorem keepGo_ne_nil (ρ : ℝ → ℝ → ℝ → ℝ) (rest : List (List ℝ)) (hne : rest ≠ []) (rhoOld : ℝ) :
     keepGo ρ rhoOld rest ≠ [] := by
   induction rest generalizing rhoOld with
@@ -171,7 +180,7 @@ theorem keepGo_sublist (ρ : ℝ → ℝ → ℝ → ℝ) (rest : List (List ℝ
       unfold keepGo
       split
       · exact (ih rhoOld).cons r
-      · exact (ih (sigma ρ r)).cons₂ r
+      · exact (ih (sigma ρ r)).cons_cons r
 
 theorem keepGo_last (ρ : ℝ → ℝ → ℝ → ℝ) (mid : List (List ℝ)) (last : List ℝ) (rhoOld : ℝ) :
     ∃ mid', keepGo ρ rhoOld (mid ++ [last]) = mid' ++ [last] := by
